@@ -146,14 +146,16 @@ def run(ctx):
     jobs = []
     for i in good:
         n_other = len(cnames) - 1
-        k = zlib.crc32(docs[i].encode("utf-8", "surrogatepass")) + ctx.seed
+        k = zlib.crc32(docs[i].encode("utf-8", "surrogatepass"))        # the two extra configurations of a document do not depend on the seed ...
         if origin[i] in ("W<=2", "tabs<=4"):
             cs = cnames if ctx.tier == "thorough" or origin[i] == "W<=2" else ["default", "strict", "code-low"]
         elif ctx.tier == "thorough":
             # every configuration for the short documents; the default and two others (fixed per document) for the rest
             cs = ["default", cnames[1 + k % n_other], cnames[1 + (k % n_other + 1 + (k // 7) % (n_other - 1)) % n_other]]
         else:
-            cs = ["default", cnames[1 + k % n_other]]
+            # ... the quick tier takes one of the two, chosen by the seed: every quick case is a thorough case whatever the seed
+            two = [cnames[1 + k % n_other], cnames[1 + (k % n_other + 1 + (k // 7) % (n_other - 1)) % n_other]]
+            cs = ["default", two[(k // 3 + ctx.seed) % 2]]
         for c in cs:
             jobs.append((i, c))
     reqs = []
